@@ -190,6 +190,17 @@ Theorem C03_merged_guard_sound_if_stable : forall (state : Type) (gs : list (Gua
 Proof. exact GuardMerge.merge_sound. Qed.
 Print Assumptions C03_merged_guard_sound_if_stable.
 
+(* the same with the side condition in the syntactic form the repaired test checks: stores map variables to values,
+   the guard of a group depends only on the variables vs it mentions, every statement of the group changes only the
+   variables ws it assigns, and vs, ws are disjoint *)
+Theorem C03_merged_guard_sound_syntactic : forall (var val : Type) (gs : list (GuardMerge.group (GuardMerge.store var val))),
+  Forall (fun g => exists vs, GuardMerge.depends_only_on var val (GuardMerge.gc _ g) vs /\
+                   forall f, In f (GuardMerge.body _ g) ->
+                     exists ws, GuardMerge.writes_only var val f ws /\ forall x, In x vs -> ~ In x ws) gs ->
+  forall s, GuardMerge.run_each _ (flat_map (GuardMerge.expand _) gs) s = GuardMerge.run_merged _ gs s.
+Proof. exact GuardMerge.merge_sound_syntactic. Qed.
+Print Assumptions C03_merged_guard_sound_syntactic.
+
 Theorem C03_merged_guard_refuted :
   exists (gs : list (GuardMerge.group GuardMerge.wst)) (s : GuardMerge.wst),
     GuardMerge.run_each _ (flat_map (GuardMerge.expand _) gs) s <> GuardMerge.run_merged _ gs s.
